@@ -13,7 +13,7 @@ import urllib.parse
 import common, enc, impl
 import segno
 
-TOP = ['theories/Tie/TieTables.v']
+TOP = ['theories/Props/C12.v', 'theories/Tie/TieTables.v']
 RULE = ('symbols x all 13 output kinds x serializer option sets x routes: file name (lower / upper / mixed case extension), stream with kind=..., '
         'png/svg data URIs decoded, svg_inline, gunzipped .svgz, command line with the corresponding flags, terminal vs. no output, sequences '
         'saved to name.ext; byte comparison with the three timestamp fields masked')
@@ -63,6 +63,7 @@ def cli_flags(kw):
 def run(ctx):
     rng = ctx.rng
     failures, samples = [], []
+    corr_broken, corr_details = [], []
     n = 0
     distinct = set()
     symbols = [dict(content='Route 66', error='M', micro=False), dict(content='12345', micro=True), dict(content='ÄÖÜ mixed content', error='Q', version=5, micro=False)]
@@ -119,7 +120,9 @@ def run(ctx):
                     # command line
                     flags = cli_flags(kw)
                     if flags is not None and not any(k.endswith(('_dark', '_light')) or k in ('quiet_zone',) for k in kw):
-                        p = os.path.join(d, 'c%d_%d.%s' % (si, oi, kind))
+                        # the command line route also with an upper-case / mixed-case extension
+                        cext = kind if oi % 3 == 0 else (kind.upper() if oi % 3 == 1 else kind.capitalize())
+                        p = os.path.join(d, 'c%d_%d.%s' % (si, oi, cext))
                         argv = ['-o', p] + flags
                         for k2, v2 in sym.items():
                             if k2 == 'content':
@@ -154,6 +157,51 @@ def run(ctx):
             pr = subprocess.run([sys.executable, '-m', 'segno.cli'] + argv + [sym['content']], capture_output=True, env=dict(os.environ, PYTHONPATH='/repo'), timeout=60)
             if pr.stdout.decode('utf-8') != buf.getvalue():
                 failures.append({'input': {'symbol': sym, 'route': 'cli without output'}, 'observed': repr(pr.stdout[:60]), 'expected': repr(buf.getvalue()[:60])})
+        # ---- routing model (extracted Gallina Route.build_config / Route.resolve) against cli.build_config / writers.save
+        from segno import cli as _cli
+
+        def cps(t):
+            return '.'.join(str(ord(c)) for c in t) or '-'
+
+        def uncps(t):
+            return '' if t == '-' else ''.join(chr(int(x)) for x in t.split('.'))
+        argvs = [[], ['--scale=3', '--border=1'], ['--dark=darkblue', '--light=transparent'], ['--no-classes', '--title=T', '--unit=mm'],
+                 ['--finder-dark=red', '--quiet-zone=trans', '--dpi=300'], ['--svgid=i', '--svgclass=c', '--lineclass=l', '--no-size', '--svgversion=1.1'],
+                 ['--no-xmldecl', '--no-namespace', '--no-newline', '--draw-transparent', '--svgencoding=latin1', '--compact']]
+        names = []
+        for ext in list(impl.writers._VALID_SERIALIZERS) + ['svgz', 'xyz']:
+            names += ['out.' + ext, 'out.' + ext.upper(), 'dir.name/out.' + ext.capitalize()]
+        names += ['noext', 'x.', None]
+        reqs, exp = [], []
+        for argv in argvs:
+            for name in names:
+                cfg = dict(_cli.parse(argv + ['content']))
+                token = ';'.join('%s=%s' % (cps(k), cps(repr(v))) for k, v in cfg.items()) or '-'
+                reqs.append('build_config %s %s' % ('-' if name is None else cps(name), token))
+                got = _cli.build_config(dict(cfg), filename=name)
+                exp.append(';'.join('%s=%s' % (cps(k), cps(repr(v))) for k, v in sorted(got.items())) or '-')
+        ans = common.oracle_parallel(reqs, chunk=40)
+        bad = [(r, a, e) for r, a, e in zip(reqs, ans, exp) if a != e]
+        n += len(reqs)
+        if bad:
+            r, a, e = bad[0]
+            corr_detail = {'request': r[:120], 'model': {uncps(x.split('=')[0]): uncps(x.split('=')[1]) for x in a.split(';') if '=' in x},
+                           'impl': {uncps(x.split('=')[0]): uncps(x.split('=')[1]) for x in e.split(';') if '=' in x}}
+            corr_broken.append('cli.build_config: model and implementation differ on %d of %d (argv, file name) pairs' % (len(bad), len(reqs)))
+            corr_details.append(corr_detail)
+        # writers.save kind / extension resolution
+        rq, ex = [], []
+        for name in names[:-1] + ['OUT.PNG', 'a.b.SVG']:
+            for kind in (None, 'svg', 'PNG', 'Svgz', 'bmp'):
+                rq.append('resolve %s %s 0' % ('-' if kind is None else cps(kind), cps(name)))
+                r0 = impl.call(lambda: segno.make('x').save(os.path.join(d, 'res_' + name.replace('/', '_')) if kind is None else io.BytesIO(), kind=kind))
+                ex.append('OK' if r0[0] == 'ok' else 'ERR ' + r0[1])
+        ans = common.oracle_parallel(rq, chunk=40)
+        for r, a, e in zip(rq, ans, ex):
+            n += 1
+            if a.split(' ')[0] != e.split(' ')[0] or (e.startswith('ERR') and a != e):
+                corr_broken.append('writers.save resolution: model %s vs implementation %s for %s' % (a, e, r))
+                break
         # unknown extension / kind
         q = segno.make('x')
         for name in ('out.xyz', 'out', 'out.', 'out.svg.bak'):
@@ -179,7 +227,7 @@ def run(ctx):
                 want = mask(api_stream(seq[k], ext, skw))
                 if got != want:
                     failures.append({'input': {'route': 'sequence file ' + f}, 'observed': repr(got[:60]), 'expected': repr(want[:60])})
-    return {'failures': failures, 'correspondence_broken': [], 'evaluations': n, 'distinct_nontrivial': len(distinct), 'rule': RULE,
+    return {'failures': failures, 'correspondence_broken': corr_broken, 'correspondence_details': corr_details, 'evaluations': n, 'distinct_nontrivial': len(distinct), 'rule': RULE,
             'samples': samples, 'searched': '%d route comparisons' % n}
 
 
